@@ -141,6 +141,135 @@ def holds_C07 (n : Nat) : List Ev → Bool
   | .childBegin c _ _ :: t => holds_C07 n t && oks t == [] && (errVal t c).isNone
   | _ :: t => holds_C07 n t
 
+
+/-! ### streams: shared observations -/
+
+/-- values of all items any child produced so far, newest first -/
+def items : List Ev → List Nat
+  | [] => []
+  | .childEnd _ (.item v) :: t => v :: items t
+  | _ :: t => items t
+
+/-- the children those items came from, newest first -/
+def srcs : List Ev → List Nat
+  | [] => []
+  | .childEnd c (.item _) :: t => c :: srcs t
+  | _ :: t => srcs t
+
+/-- values the combinator yielded so far (all fields of every `Some`), newest first -/
+def yielded : List Ev → List Nat
+  | [] => []
+  | .pollEnd (.some _ vs) :: t => vs.reverse ++ yielded t
+  | _ :: t => yielded t
+
+/-- has child `c` returned `None`? -/
+def ended (t : List Ev) (c : Nat) : Bool := lastRes t c == some .fin
+
+def allEnded (n : Nat) (t : List Ev) : Bool := (List.range n).all (fun c => ended t c)
+
+/-- did some child return `None` in this segment? -/
+def anyFin : List Ev → Bool
+  | [] => false
+  | .childEnd _ .fin :: _ => true
+  | _ :: t => anyFin t
+
+/-! ### C08 — merge -/
+
+/-- verdict on the outcome `o` of a poll, `t` = the trace before its `pollEnd`:
+    an item taken in this poll is yielded by this poll (and is the only one taken); `None` exactly
+    when every input has ended, in the poll in which the last one ends -/
+def c08At (n : Nat) (t : List Ev) : Outcome → Bool
+  | .some _ vals => items (sincePoll t) == vals && vals.length == 1
+  | .pending => items (sincePoll t) == [] && !allEnded n t
+  | .none => items (sincePoll t) == [] && allEnded n t && (n == 0 || anyFin (sincePoll t))
+  | .panicked => items (sincePoll t) == []
+  | .misuse => spent false t
+  | _ => false
+
+/-- C08: per-poll verdicts; nothing is polled once an item was taken in this poll; and globally
+    the sequence of yielded values IS the sequence of items the inputs produced (every item exactly
+    once, per-input order kept) -/
+def holds_C08 (n : Nat) : List Ev → Bool
+  | [] => true
+  | .pollEnd o :: t => holds_C08 n t && c08At n t o && yielded (.pollEnd o :: t) == items t
+  | .childBegin _ _ _ :: t => holds_C08 n t && items (sincePoll t) == []
+  | _ :: t => holds_C08 n t
+
+/-! ### C17 — merge fairness -/
+
+/-- every answer input `a` gave so far was an item -/
+def alwaysItem : List Ev → Nat → Bool
+  | [], _ => true
+  | .childEnd c r :: t, a =>
+    (c != a || (match r with | .item _ => true | _ => false)) && alwaysItem t a
+  | _ :: t, a => alwaysItem t a
+
+/-- at every yield: every input that always had an item is among the sources of the latest `n`
+    yields (once there are `n` of them) -/
+def c17At (n : Nat) (t : List Ev) : Bool :=
+  (List.range n).all (fun a =>
+    !(alwaysItem t a) || (srcs t).length < n || ((srcs t).take n).contains a)
+
+def holds_C17 (n : Nat) : List Ev → Bool
+  | [] => true
+  | .pollEnd (.some k vs) :: t => holds_C17 n t && c17At n t
+  | _ :: t => holds_C17 n t
+
+/-! ### C09 — zip -/
+
+/-- items input `c` produced so far, newest first -/
+def itemsOf : List Ev → Nat → List Nat
+  | [], _ => []
+  | .childEnd c' (.item v) :: t, c => if c' = c then v :: itemsOf t c else itemsOf t c
+  | _ :: t, c => itemsOf t c
+
+/-- rows yielded so far -/
+def rows : List Ev → Nat
+  | [] => 0
+  | .pollEnd (.some _ _) :: t => rows t + 1
+  | _ :: t => rows t
+
+def rowFull (n : Nat) (t : List Ev) : Bool :=
+  (List.range n).all (fun c => (itemsOf t c).length == rows t + 1)
+
+/-- a row is yielded exactly when every input has delivered its item for it, and consists of those
+    items positionally; `None` in the poll in which an input is found to have ended -/
+def c09At (n : Nat) (t : List Ev) : Outcome → Bool
+  | .some _ vals =>
+    !anyFin t && rowFull n t && vals == (List.range n).map (fun c => (itemsOf t c).headD 0)
+  | .pending => !anyFin t && !rowFull n t
+  | .none => anyFin (sincePoll t)
+  | .panicked => true
+  | .misuse => spent false t
+  | _ => false
+
+/-- C09: an input is polled only while its item for the current row is missing (so it is never
+    more than one item ahead) and never after any input ended -/
+def holds_C09 (n : Nat) : List Ev → Bool
+  | [] => true
+  | .pollEnd o :: t => holds_C09 n t && c09At n t o
+  | .childBegin c _ _ :: t => holds_C09 n t && !anyFin t && (itemsOf t c).length == rows t
+  | _ :: t => holds_C09 n t
+
+/-! ### C10 — chain -/
+
+def c10At (n : Nat) (t : List Ev) : Outcome → Bool
+  | .some _ vals => items (sincePoll t) == vals && vals.length == 1
+  | .pending => items (sincePoll t) == [] && !allEnded n t
+  | .none => items (sincePoll t) == [] && allEnded n t
+  | .panicked => items (sincePoll t) == []
+  | .misuse => spent false t
+  | _ => false
+
+/-- C10: an input is polled only after every earlier input has ended; the yielded sequence is
+    the sequence of produced items (hence the concatenation in input order) -/
+def holds_C10 (n : Nat) : List Ev → Bool
+  | [] => true
+  | .pollEnd o :: t => holds_C10 n t && c10At n t o && yielded (.pollEnd o :: t) == items t
+  | .childBegin c _ _ :: t =>
+    holds_C10 n t && items (sincePoll t) == [] && (List.range c).all (fun j => ended t j)
+  | _ :: t => holds_C10 n t
+
 /-! ### C19 — wait_until (child 0 = deadline, child 1 = inner future / stream) -/
 
 def deadlineDone (t : List Ev) : Bool := (resolvedVal t 0).isSome
